@@ -1,1 +1,23 @@
-fn main(){}
+//! netwire: wire-level monitors for turmoil-net (C06, C16).
+
+mod checks;
+mod exec;
+mod oracle;
+mod prog;
+mod scn;
+mod wire;
+
+fn main() {
+    let args: Vec<String> = std::env::args().collect();
+    let ctx = vcore::Ctx::from_args(&args[1..]);
+    vcore::install_quiet_panic_hook();
+    match ctx.prop.as_str() {
+        "C06" => checks::c06::run(&ctx),
+        "C16" => checks::c16::run(&ctx),
+        "probe" => checks::probe::run(&ctx),
+        other => {
+            println!("INCONCLUSIVE property={other} unknown to netwire (C06, C16)");
+            std::process::exit(2);
+        }
+    }
+}
